@@ -6,6 +6,7 @@ CONSTANTS
   MaxRecs = 2
   AllowMixed = TRUE
   NCorrupt = 0
+  Subst0 = {48, 49, 56, 70, 71, 58, 83}
   Lens = {0, 1, 3}
 INIT Init
 NEXT Next
